@@ -54,6 +54,7 @@ func NewFloatListDecoder(reuseRecords bool) *FloatListDecoder {
 }
 
 func (d *FloatListDecoder) makeFloatSlice(n uint32) []float64 {
+	n = preallocCount(n)
 	if d.sl == nil {
 		return make([]float64, 0, n)
 	}
